@@ -39,9 +39,21 @@ def applyTo (p rp rf : Int) : Except AErr Int := do
   if rounded then throw .invalid
   pure amt
 
-/-- One coin of `CalculateExchangeSplit`: `amt` of a denom whose split is `split` (bips).
-`none` = the coin is skipped (zero amount or zero split). -/
+/-- One coin of `CalculateExchangeSplit` (after the repair 5d6beec44, see known findings): `amt`
+of a denom whose split is `split` (bips). `none` = the coin is skipped (zero amount or zero split).
+`⌈amt·split/10000⌉` is computed on the whole and remainder parts of `amt/10000`. -/
 def exchangeSplitCoin (amt : Int) (split : Nat) : Except AErr (Option Int) := do
+  if amt = 0 then return none
+  if split = 0 then return none
+  let whole := amt.tdiv 10000
+  let rem := amt.tmod 10000
+  let a ← mul256 whole (split : Int)
+  let b ← mul256 rem (split : Int)
+  let r ← add256 a (quoIntRoundUp b 10000)
+  pure (some r)
+
+/-- `CalculateExchangeSplit` before the repair: the whole amount was multiplied first. -/
+def exchangeSplitCoinPreFix (amt : Int) (split : Nat) : Except AErr (Option Int) := do
   if amt = 0 then return none
   if split = 0 then return none
   let prod ← mul256 amt (split : Int)
